@@ -29,46 +29,62 @@ structure Allow where
   file : String
   fn : String          -- enclosing function (site) or caller (call row)
   callee : String
-  origin : Origin
+  root : String        -- root expression of the unmediated flow, as the generator reports it (`Site.root`)
   why : String
 
-/-- the explicit allow-list (each entry is matched on file, function, callee AND the exact origin text) -/
+/-- the explicit allow-list.  An entry licenses the `other`-origin rows of ONE function calling ONE callee whose
+    path flows from ONE root expression (not a line number, not the chain of local variables in between): a
+    harmless refactoring keeps the key, a new unmediated call — another function, callee or source of the path —
+    is not covered and breaks `mediated_sites`. -/
 def allowList : List Allow := [
-  { file := "lib/lpc/lex.c", fn := "inc_open", callee := "open", origin := .other "buf <- inc_list[i]",
+  { file := "lib/lpc/lex.c", fn := "inc_open", callee := "open", root := "inc_list[i]",
     why := "fallback search `sprintf (buf, \"%s/%s\", inc_list[i], name)`: inc_list entries passed legal_path in " ++
-           "set_inc_list and `name` was just rejected if it contains \"..\": theorem include_path_confined" },
-  { file := "lib/efuns/ed.c", fn := "save_ed_buffer", callee := "dowrite", origin := .other "fname <- stmp->u.string",
+           "set_inc_list (\"\" is stored as \".\") and `name` was just rejected if it contains \"..\": theorems " ++
+           "include_path_confined, inc_dir_ok" },
+  { file := "lib/efuns/ed.c", fn := "save_ed_buffer", callee := "dowrite", root := "stmp->u.string",
     why := "the file name is the master's own answer (get_ed_buffer_save_file_name) when an editing user goes " ++
-           "net-dead; not filtered by legal_path (observation O-2 in notes/C15.md)" },
-  { file := "lib/lpc/program/binaries.c", fn := "save_binary", callee := "crdir_fopen",
-    origin := .other "file_name <- prog->name",
+           "net-dead: the approving authority chose the path itself (observation O-2 in notes/C15.md)" },
+  { file := "lib/lpc/program/binaries.c", fn := "save_binary", callee := "crdir_fopen", root := "prog->name",
     why := "SaveBinaryDir (configuration) + \"/\" + program name; the program name passed legal_path in load_object" },
   { file := "lib/lpc/program/binaries.c", fn := "load_binary", callee := "check_times",
-    origin := .other "iname <- buf <- DXALLOC (buf_size, TAG_TEMPORARY, \"ALLOC_...",
-    why := "stat of the include file names recorded inside a saved binary (written by save_binary from names that " ++
-           "went through inc_open)" },
+    root := "DXALLOC (buf_size, TAG_TEMPORARY, \"ALLOC_BUF\")",
+    why := "stat () only, of names read from the saved binary being validated: its include files (written by " ++
+           "save_binary from names that went through inc_open), the programs it inherits and their binaries " ++
+           "(SaveBinaryDir + name + \".b\"); the binary itself lives in the administrator's SaveBinaryDir" },
+  { file := "lib/lpc/program/binaries.c", fn := "binaries_simul_efun_loaded", callee := "stat",
+    root := "global simul_efun_path",
+    why := "stat () of the configured SimulEfunFile (leading slashes removed, \".c\" appended): administrator's " ++
+           "configuration, sampled for config_id when the simul_efun object is (re)loaded" },
   { file := "lib/lpc/program/binaries.c", fn := "load_binary", callee := "check_times",
-    origin := .other "buf <- DXALLOC (buf_size, TAG_TEMPORARY, \"ALLOC_BUF\")",
-    why := "stat of the inherited program names recorded inside a saved binary" },
-  { file := "lib/lpc/program/binaries.c", fn := "load_binary", callee := "check_times",
-    origin := .other "file_name_two <- buf <- DXALLOC (buf_size, TAG_TEMPORARY,...",
-    why := "stat of SaveBinaryDir + inherited program name + \".b\"" }]
+    root := "global simul_efun_path",
+    why := "stat () of the same configured SimulEfunFile to invalidate binaries older than the simul_efun source" },
+  { file := "lib/lpc/program/binaries.c", fn := "inherited_program_newer", callee := "check_times",
+    root := "prog->strings[id - 1]",
+    why := "stat () only, of the file names in the line-number table of an ALREADY LOADED inherited program: its " ++
+           "source (passed legal_path in load_object) and the files it #included (opened by inc_open, theorem " ++
+           "include_path_confined) — every one of them was opened by the confined loader before" },
+  { file := "lib/lpc/program/binaries.c", fn := "inherited_program_newer", callee := "check_times",
+    root := "prog->name",
+    why := "stat () only, of SaveBinaryDir (configuration) + \"/\" + name of an already loaded inherited program " ++
+           "(passed legal_path in load_object) with the extension .b" }]
 
-def allowed (file fn callee : String) (o : Origin) : Bool :=
-  allowList.any (fun a => a.file == file && a.fn == fn && a.callee == callee && a.origin == o)
+def allowed (file fn callee : String) (o : Origin) (root : String) : Bool :=
+  match o with
+  | .other _ => allowList.any (fun a => a.file == file && a.fn == fn && a.callee == callee && a.root == root)
+  | _ => false
 
 /-- a call row is fine when its argument is mediated, allow-listed, or is itself an unmodified parameter all of
     whose callers are fine (bounded depth; the generator emits the rows transitively) -/
 def callOk : Nat → Call → Bool
   | 0, _ => false
   | n + 1, c =>
-    originOk c.origin || allowed c.file c.caller c.callee c.origin ||
+    originOk c.origin || allowed c.file c.caller c.callee c.origin c.root ||
       match c.origin with
       | .param k => (calls.filter (fun d => d.callee == c.caller && d.arg == k)).all (callOk n)
       | _ => false
 
 def siteOk (s : Site) : Bool :=
-  originOk s.origin || allowed s.file s.fn s.callee s.origin ||
+  originOk s.origin || allowed s.file s.fn s.callee s.origin s.root ||
     match s.origin with
     | .param k => (calls.filter (fun d => d.callee == s.fn && d.arg == k)).all (callOk 4)
     | _ => false
@@ -104,7 +120,7 @@ example : fsEfuns.length ≥ 20 := by decide
 
 /-- an unmediated site is rejected (non-vacuity of `siteOk`) -/
 example : siteOk { file := "lib/efuns/file.c", fn := "f_rmdir", callee := "rmdir", arg := 0, line := 76,
-                   origin := .other "path <- sp->u.string" } = false := by decide
+                   origin := .other "path <- sp->u.string", root := "sp->u.string" } = false := by decide
 
 example : sites.length ≥ 40 := by decide
 
